@@ -1,4 +1,4 @@
-import DcmVerif.Proofs.Key
+import DcmVerif.Proofs.Total
 /-! Property theorems for C04. Statements only; proofs are by reference to `Proofs/`. -/
 set_option autoImplicit false
 open Cls
@@ -73,5 +73,31 @@ theorem simplify_keeps_lookup (null : α) (sh : Shp) (wf : WF sh) (c : Cls) (val
     (s t v : Nat) (hs : s < sh.S) (ht : t < sh.T) (hv : v < sh.V) :
     lookupK sh d out s t v = lookupK sh c vals s t v :=
   _root_.simplify_lookup null sh wf c vals hsl hlen d out h hbug s t v hs ht hv
+
+/-! ### `get_subset` cannot fail in these regions (`Proofs/Total.lean`) -/
+
+/-- `_simplify` never raises on a valid key when a present time / vector axis has ≥ 2 entries -/
+theorem simplify_total (null : α) (sh : Shp) (wf : WF sh) (hsl : sh.hasSlice = true)
+    (ht : sh.hasTime = true → 2 ≤ sh.T) (hv : sh.hasVector = true → 2 ≤ sh.V)
+    (c : Cls) (vals : List α) (hl : vals.length = mult sh c) :
+    ∃ o, simplifyK null sh c vals = .ok o :=
+  Total.simplifyK_ok null sh wf hsl ht hv c vals hl
+
+theorem subset_slice_total (null : α) (sh : Shp) (hc : Consistent sh)
+    (hV2 : sh.hasVector = true → 2 ≤ sh.V)
+    (ks : KeyState α) (hv : ValidK sh ks) (idx : Nat) (hidx : idx < sh.S) :
+    ∃ p, subsetSliceK null sh ks idx = .ok p :=
+  Total.subsetSliceK_ok null sh hc hV2 ks hv idx hidx
+
+theorem subset_time_total (null : α) (sh : Shp) (hc : Consistent sh) (h45 : sh.nd = 4 ∨ sh.nd = 5)
+    (hV2 : sh.nd = 5 → 2 ≤ sh.V)
+    (ks : KeyState α) (hv : ValidK sh ks) (idx : Nat) (hidx : idx < sh.T) :
+    ∃ p, subsetTimeK null sh ks idx = .ok p :=
+  Total.subsetTimeK_ok null sh hc h45 hV2 ks hv idx hidx
+
+theorem subset_vector_total (null : α) (sh : Shp) (hc : Consistent sh) (h5 : sh.nd = 5)
+    (ks : KeyState α) (hv : ValidK sh ks) (idx : Nat) (hidx : idx < sh.V) :
+    ∃ p, subsetVecK null sh ks idx = .ok p :=
+  Total.subsetVecK_ok null sh hc h5 ks hv idx hidx
 
 end C04
